@@ -431,6 +431,29 @@ func init() {
 		concBin("strings.HasSuffix", func(a, b string) Value { return VBool{BoolC(strings.HasSuffix(a, b))} })
 		concBin("strings.Trim", func(a, b string) Value { return concStr(strings.Trim(a, b)) })
 		concBin("strings.TrimSuffix", func(a, b string) Value { return concStr(strings.TrimSuffix(a, b)) })
+		// strings.TrimSpace on byte-level ASCII strings: forks on the number of leading / trailing white-space bytes
+		m["strings.TrimSpace"] = func(ex *Exec, fr *frame, cc *ssa.CallCommon, a []Value) Value {
+			s := a[0].(VStr)
+			if s.Conc != nil {
+				return concStr(strings.TrimSpace(*s.Conc))
+			}
+			if s.Bytes == nil {
+				panic(unsupported{"strings.TrimSpace on an atom"})
+			}
+			isWS := func(b Term) Term { return Or(And(Ge(b, IntC(9)), Le(b, IntC(13))), Eq(b, IntC(32))) }
+			bs := s.Bytes
+			lo, hi := 0, len(bs)
+			for lo < hi && ex.decide(isWS(bs[lo])) {
+				lo++
+			}
+			for hi > lo && ex.decide(isWS(bs[hi-1])) {
+				hi--
+			}
+			if lo == hi {
+				return concStr("")
+			}
+			return VStr{Bytes: append([]Term{}, bs[lo:hi]...)}
+		}
 		m["strings.ToLower"] = func(ex *Exec, fr *frame, cc *ssa.CallCommon, a []Value) Value {
 			s := a[0].(VStr)
 			if s.Conc != nil {
